@@ -244,11 +244,16 @@ class Matcher:
     strict=False : a reference is transparent (ISO 32000-1 §7.3.10: an indirect reference stands for the object)
     Pairs (source number, new number) met at corresponding positions are collected in `pairs`."""
 
-    def __init__(self, gs, gn, strict=False, ignore_keys=()):
+    def __init__(self, gs, gn, strict=False, ignore_keys=(), content_aware=False, pattern_lost_ok=()):
         self.gs, self.gn, self.strict = gs, gn, strict
         self.pairs = set()
         self.seen = set()
         self.ignore = set(ignore_keys)
+        # content_aware: a tiling pattern (PatternType 1, §8.7.3) is a content stream with its own resources: its data is
+        # compared as an operation sequence and its /Resources by the names the operations use (as for a page).
+        # pattern_lost_ok: entries of a tiling pattern's dictionary that the copy may lack (named by the caller, never by default)
+        self.content_aware = content_aware
+        self.pattern_lost_ok = set(pattern_lost_ok)
 
     def eq(self, a, b, path="", top_ignore=()):
         if isinstance(a, Ref) and isinstance(b, Ref):
@@ -264,6 +269,8 @@ class Matcher:
                 if self.gn[b.num] is not None:
                     raise Diff("%s: source reference %r is dangling but the copy is not null" % (path, a))
                 return
+            if self.gn[b.num] is None and self.gs[a.num] is not None:
+                raise Diff("%s: source object %d is lost: its copy, new object %d, is null" % (path, a.num, b.num))
             return self.eq(self.gs[a.num], self.gn[b.num], path + "->%d" % a.num)
         if isinstance(a, Ref) or isinstance(b, Ref):
             if self.strict:
@@ -278,6 +285,10 @@ class Matcher:
                 raise Diff("%s: number %r != %r" % (path, a, b))
             return
         if isinstance(a, Stream) and isinstance(b, Stream):
+            if self.content_aware and deref(self.gs, a.d.get("PatternType")) == 1:
+                xa, xb = decode_stream(self.gs, a), decode_stream(self.gn, b)
+                if xa is not None and xb is not None:
+                    return self.eq_tiling(a, b, xa, xb, path)
             da = {k: v for k, v in a.d.items() if k != "Length" and not default_parms(self.gs, k, v)}
             db = {k: v for k, v in b.d.items() if k != "Length" and not default_parms(self.gn, k, v)}
             # a single filter may be given as a name or as a one-element array (Table 5)
@@ -290,6 +301,13 @@ class Matcher:
             lb = deref(self.gn, b.d.get("Length"))
             if lb != len(b.data):
                 raise Diff("%s: /Length %r of the copy differs from its %d data bytes" % (path, lb, len(b.data)))
+            # /DecodeParms entry by entry: an entry that states the default of Table 8 says the same as its absence
+            pa, pb = norm_parms(self.gs, a), norm_parms(self.gn, b)
+            if pa is not None and pb is not None:
+                da.pop("DecodeParms", None)
+                db.pop("DecodeParms", None)
+                for i in range(max(len(pa), len(pb))):
+                    self.eq(pa[i] if i < len(pa) else {}, pb[i] if i < len(pb) else {}, path + "{stream}/DecodeParms[%d]" % i)
             self.eq(da, db, path + "{stream}", top_ignore)
             why = stream_data_problem(self.gs, a, self.gn, b)
             if why:
@@ -298,6 +316,11 @@ class Matcher:
         if type(a) != type(b) and not (isinstance(a, (list, tuple)) and isinstance(b, (list, tuple))):
             raise Diff("%s: %r against %r" % (path, _short(a), _short(b)))
         if isinstance(a, dict):
+            for k in a:
+                # an entry whose copy refers to a null object says nothing any more: name the object that was lost
+                if k in b and isinstance(a[k], Ref) and isinstance(b[k], Ref) and deref(self.gs, a[k]) is not None \
+                        and b[k].num in self.gn and self.gn[b[k].num] is None:
+                    raise Diff("%s/%s: source object %d is lost: its copy, new object %d, is null" % (path, k, a[k].num, b[k].num))
             ka = set(k for k in a if k not in top_ignore and k not in self.ignore and not _nullish(self.gs, a[k]) and not _is_default(self.gs, k, a[k]))
             kb = set(k for k in b if k not in top_ignore and k not in self.ignore and not _nullish(self.gn, b[k]) and not _is_default(self.gn, k, b[k]))
             if "Type" in kb and "Type" not in ka and isinstance(deref(self.gn, b["Type"]), Name):
@@ -310,11 +333,52 @@ class Matcher:
         if isinstance(a, (list, tuple)):
             if len(a) != len(b):
                 raise Diff("%s: array length %d != %d" % (path, len(a), len(b)))
+            if len(a) == 4 and deref(self.gs, a[0]) == Name("Indexed") and not self.strict:
+                # [/Indexed base hival lookup]: the palette may be held as a string or as a stream (§8.6.6.3) — the same
+                # bytes are the same palette; a stream is an indirect object (§7.3.8), never a direct element of the array
+                if isinstance(b[3], Stream):
+                    raise Diff("%s[3]: the palette of the copy is a stream written directly inside the colour-space array "
+                               "(a stream shall be an indirect object)" % path)
+                la, lb = indexed_lookup(self.gs, a[3]), indexed_lookup(self.gn, b[3])
+                if la is not None and lb is not None:
+                    for i in range(3):
+                        self.eq(a[i], b[i], path + "[%d]" % i)
+                    if la != lb:
+                        raise Diff("%s[3]: the palettes differ (%d / %d bytes)" % (path, len(la), len(lb)))
+                    return
             for i, (x, y) in enumerate(zip(a, b)):
                 self.eq(x, y, path + "[%d]" % i)
             return
         if a != b:
             raise Diff("%s: %r != %r" % (path, _short(a), _short(b)))
+
+
+    def eq_tiling(self, a, b, xa, xb, path):
+        """a tiling pattern and its copy (Table 75): the entries other than /Length /Filter /DecodeParms /Resources entry by
+        entry, the decoded data as operation sequences, and every resource the operations name"""
+        skip = ("Length", "Filter", "DecodeParms", "Resources")
+        lb = deref(self.gn, b.d.get("Length"))
+        if lb != len(b.data):
+            raise Diff("%s: /Length %r of the copy differs from its %d data bytes" % (path, lb, len(b.data)))
+        da = {k: v for k, v in a.d.items() if k not in skip and not (k in self.pattern_lost_ok and k not in b.d)}
+        db = {k: v for k, v in b.d.items() if k not in skip}
+        self.eq(da, db, path + "{pattern}")
+        ta, tb = tokens(xa), tokens(xb)
+        why = tokens_equal(ta, tb) and ops_problem(self, ta, tb, path + "{pattern}")
+        if why:
+            raise Diff("%s: the operations of the tiling pattern differ: %s" % (path, why))
+        ra = deref(self.gs, a.d.get("Resources"))
+        rb = deref(self.gn, b.d.get("Resources"))
+        ra, rb = (ra if isinstance(ra, dict) else {}), (rb if isinstance(rb, dict) else {})
+        for cat, name in resource_uses(ta):
+            sd = deref(self.gs, ra.get(cat))
+            key = name.decode("latin-1")
+            if not isinstance(sd, dict) or key not in sd or deref(self.gs, sd[key]) is None:
+                continue
+            nd = deref(self.gn, rb.get(cat))
+            if not isinstance(nd, dict) or key not in nd:
+                raise Diff("%s: resource /%s /%s used by the operations of the tiling pattern is missing" % (path, cat, key))
+            self.eq(sd[key], nd[key], path + "/Resources/%s/%s" % (cat, key))
 
 
 PARM_DEFAULTS = {"Predictor": 1, "Colors": 1, "BitsPerComponent": 8, "Columns": 1, "EarlyChange": 1}
@@ -335,6 +399,47 @@ def default_parms(g, k, v):
         if not isinstance(d, dict) or any(PARM_DEFAULTS.get(kk, object()) != deref(g, x) for kk, x in d.items()):
             return False
     return True
+
+
+FLATE_LZW = (b"FlateDecode", b"Fl", b"LZWDecode", b"LZW")
+
+
+def norm_parms(g, st):
+    """the parameters of each filter of a stream without the entries that are null or (FlateDecode / LZWDecode, Table 8) state
+    the default value; [] when no filter has any left.  None if /Filter and /DecodeParms are not of the regular shape (a name
+    with a dictionary, or an array with an array of dictionaries / nulls not longer than it): then they are compared as they are"""
+    f = deref(g, st.d.get("Filter"))
+    p = deref(g, st.d.get("DecodeParms"))
+    if f is None or p is None:
+        return [] if p is None else None
+    if not isinstance(f, (Name, list)) or not isinstance(p, (dict, list)):
+        return None
+    names = [deref(g, x) for x in f] if isinstance(f, list) else [f]
+    parms = [deref(g, x) for x in p] if isinstance(p, list) else [p]
+    if len(parms) > len(names) or not all(isinstance(n, Name) for n in names) or not all(d is None or isinstance(d, dict) for d in parms):
+        return None
+    out = []
+    for i, n in enumerate(names):
+        d = {k: v for k, v in ((parms[i] if i < len(parms) else None) or {}).items() if deref(g, v) is not None}
+        if n.s in FLATE_LZW:
+            d = {k: v for k, v in d.items()
+                 if not (k in PARM_DEFAULTS and is_num(deref(g, v)) and deref(g, v) == PARM_DEFAULTS[k])}
+        out.append(d)
+    return out if any(out) else []
+
+
+def indexed_lookup(g, v):
+    """the palette of an Indexed colour space (§8.6.6.3: a stream or a byte string) as bytes; None if it is neither a string
+    nor a reference to a stream the oracle can decode"""
+    if isinstance(v, (bytes, bytearray)):
+        return bytes(v)
+    if isinstance(v, Ref):
+        t = deref(g, v)
+        if isinstance(t, (bytes, bytearray)):
+            return bytes(t)
+        if isinstance(t, Stream):
+            return decode_stream(g, t)
+    return None
 
 
 # entries whose absence means exactly this value (Table 89 image dictionaries, Table 95 form dictionaries)
@@ -564,6 +669,77 @@ def tokens_equal(a, b):
     return None
 
 
+_MARK_A, _MARK_D = object(), object()
+
+
+def operations(toks):
+    """tokens -> [(operator, [operand values])] (§7.8.2: operands precede their operator).  Operands are values of the
+    oracle (float, Name, bytes, bool, None, list, dict with str keys, Ref for `n g R` — the library's reader accepts a
+    reference inside an operand); inline image data is the last operand of the pseudo-operator ID"""
+    out, st = [], []
+
+    def close(mark):
+        items = []
+        while st and st[-1] is not mark:
+            items.append(st.pop())
+        if st:
+            st.pop()
+        items.reverse()
+        return items
+    for t in toks:
+        k = t[0]
+        if k == "num":
+            st.append(t[1])
+        elif k == "name":
+            st.append(Name(t[1]))
+        elif k == "str":
+            st.append(t[1])
+        elif k == "[":
+            st.append(_MARK_A)
+        elif k == "<<":
+            st.append(_MARK_D)
+        elif k == "]":
+            st.append(close(_MARK_A))
+        elif k == ">>":
+            it = close(_MARK_D)
+            st.append({(x.s.decode("latin-1") if isinstance(x, Name) else repr(x)): y for x, y in zip(it[0::2], it[1::2])})
+        elif k == "inline":
+            out.append((b"ID", [x for x in st if x is not _MARK_A and x is not _MARK_D] + [t[1]]))
+            st = []
+        else:
+            op = t[1]
+            if op == b"R" and len(st) >= 2 and all(isinstance(x, float) and x == int(x) and x >= 0 for x in st[-2:]):
+                g_ = int(st.pop())
+                st.append(Ref(int(st.pop()), g_))
+            elif op in (b"true", b"false"):
+                st.append(op == b"true")
+            elif op == b"null":
+                st.append(None)
+            else:
+                out.append((op, [x for x in st if x is not _MARK_A and x is not _MARK_D]))
+                st = []
+    return out
+
+
+def ops_problem(M, ta, tb, path="ops"):
+    """None if the two token lists are the same operation sequence: the same operators with equal operands, where a
+    reference in an operand stands for the object it designates in its own document (compared through the matcher M,
+    which also records the pair) and the order of the entries of a dictionary operand is immaterial"""
+    oa, ob = operations(ta), operations(tb)
+    for i, ((pa, xa), (pb, xb)) in enumerate(zip(oa, ob)):
+        if pa != pb or len(xa) != len(xb):
+            return "operation %d: %s with %d operand(s) / %s with %d operand(s)" % (
+                i, pa.decode("latin-1"), len(xa), pb.decode("latin-1"), len(xb))
+        for j, (x, y) in enumerate(zip(xa, xb)):
+            try:
+                M.eq(x, y, "%s[%d] %s operand %d" % (path, i, pa.decode("latin-1"), j))
+            except Diff as e:
+                return "operation %d: %s" % (i, e)
+    if len(oa) != len(ob):
+        return "%d / %d operations" % (len(oa), len(ob))
+    return None
+
+
 # operators that name a resource (Table 51 ff.): operator -> (category of the resource dictionary, operand index from the end)
 RES_OPS = {b"Tf": "Font", b"Do": "XObject", b"gs": "ExtGState", b"cs": "ColorSpace", b"CS": "ColorSpace", b"sh": "Shading"}
 DEVICE_CS = {b"DeviceGray", b"DeviceRGB", b"DeviceCMYK", b"Pattern"}
@@ -624,7 +800,11 @@ def split_import_result(fields):
     return {"npages": n, "views": views, "new_objs": new_objs, "new_trailer": new_trailer, "src_objs": src_objs, "src_trailer": src_trailer}
 
 
-def judge_import(gs, src_trailer, sel, fields, expect=None, content_tokens=True):
+# entries of a page object that the page view / the resources judge, or that an import does not carry (/Parent, /Annots)
+PAGE_JUDGED = ("Type", "Parent", "Resources", "MediaBox", "CropBox", "TrimBox", "Contents", "Rotate", "Annots")
+
+
+def judge_import(gs, src_trailer, sel, fields, expect=None, content_tokens=True, pattern_lost_ok=(), page_entries=False):
     """None if the imported pages satisfy C20, else the reason.
 
     gs / src_trailer : the source graph and trailer dictionary (known by construction, or the dump of the source)
@@ -644,7 +824,7 @@ def judge_import(gs, src_trailer, sel, fields, expect=None, content_tokens=True)
     npages = pages_of(gn, tn)
     if len(npages) != len(sel):
         return "the new page tree has %d leaves instead of %d" % (len(npages), len(sel))
-    M = Matcher(gs, gn, strict=False)
+    M = Matcher(gs, gn, strict=False, content_aware=True, pattern_lost_ok=pattern_lost_ok)
     for j, pi in enumerate(sel):
         if pi >= len(spages):
             return "source has no page %d" % pi
@@ -679,7 +859,7 @@ def judge_import(gs, src_trailer, sel, fields, expect=None, content_tokens=True)
         if nrot != srot:
             return "page %d: raw Rotate %r instead of %r" % (j, nrot, srot)
         # --- operation sequence
-        r = tokens_equal(tokens(old_ops), tokens(new_ops))
+        r = tokens_equal(tokens(old_ops), tokens(new_ops)) and ops_problem(M, tokens(old_ops), tokens(new_ops), "page%d" % j)
         if r:
             return "page %d: operation sequence differs after reload: %s" % (j, r)
         stoks = None
@@ -692,7 +872,7 @@ def judge_import(gs, src_trailer, sel, fields, expect=None, content_tokens=True)
                 if nc is None:
                     return "page %d: content of the new page cannot be decoded" % j
                 stoks = tokens(sc)
-                r = tokens_equal(stoks, tokens(nc))
+                r = tokens_equal(stoks, tokens(nc)) and ops_problem(M, stoks, tokens(nc), "page%d" % j)
                 if r:
                     return "page %d: content tokens differ: %s" % (j, r)
         if stoks is None:
@@ -714,6 +894,17 @@ def judge_import(gs, src_trailer, sel, fields, expect=None, content_tokens=True)
                 return "resource content differs: %s" % e
             except RecursionError:
                 return "oracle: recursion limit while comparing /%s /%s" % (cat, key)
+        # --- the other entries of the page object (page_entries=True): each is there with equal content
+        if page_entries:
+            for key in sorted(sp):
+                if key in PAGE_JUDGED or deref(gs, sp[key]) is None:
+                    continue
+                if key not in np_:
+                    return "page %d: entry /%s of the source page is missing" % (j, key)
+                try:
+                    M.eq(sp[key], np_[key], "page%d/%s" % (j, key))
+                except Diff as e:
+                    return "page entry differs: %s" % e
     # --- shared source objects are copied once
     cr = copy_relation_problems(M.pairs)
     if cr:
